@@ -124,7 +124,7 @@ def r17_3(run, model):
             for a, what in ((none[0] if none else None, "none"), (many[0] if many else None, "many")):
                 if a is not None:
                     t = S.norm_ws(run.facts.text(UNI, a["body"]["sp"]))
-                    ok = ok and "diagnostics.push(" in t and "Severity::Error" in t
+                    ok = ok and S.pushes_error(model, run.facts, UNI, a["body"])
                     # unconditional: the push is not nested under an if/match inside the arm
                     pa = S.Parents(a["body"])
                     pushes = [c for c in S.walk(a["body"]) if c["k"] == "MethodCall" and c["method"] == "push" and "diagnostics" in S.idents(c["recv"])]
